@@ -362,7 +362,7 @@ for n, t in (("len0", "quick"), ("len1_at128", "quick"), ("len33_at7", "quick"),
 _ORA = ["compression::no_header_decompress -> abstract oracle (records its input, returns nondeterministic output / status)"]
 H("C02", "sqpack_mod", "c02_deflated_block_contract", unwind=40, timeout=600, bounds="deflated block, compressed length 5 / decompressed 9 at offset 3, all stream bytes, every oracle result",
   encodes=["sqpack::read_data_block"], stubs=_ORA, replay="structural", cbmc_args=FS256)
-H("C02", "sqpack_mod", "c02_deflated_block_contract_b", tier="thorough", unwind=40, timeout=600, bounds="deflated block 12 -> 4 at offset 0", encodes=["sqpack::read_data_block"], stubs=_ORA, replay="structural", cbmc_args=FS256)
+H("C02", "sqpack_mod", "c02_deflated_block_contract_b", tier="quick", unwind=40, timeout=600, bounds="deflated block 12 -> 4 at offset 0 (a stream longer than its content: stored deflate blocks, tiny blocks)", encodes=["sqpack::read_data_block"], stubs=_ORA, replay="structural", cbmc_args=FS256)
 H("C02", "sqpack_mod", "c02_pipeline_witness", expect="witness-fail", bounds="assert(false) twin")
 for n, t in (("len1", "quick"), ("len112", "quick"), ("len113", "quick"), ("len128", "thorough")):
     H("C03", "sqpack_mod", "c03_patch_raw_block_" + n, tier=t, unwind=140, timeout=600, bounds="patch raw block of " + n[3:] + " bytes, all content", encodes=["sqpack::read_data_block_patch"], cbmc_args=FS1K)
@@ -628,3 +628,9 @@ for n in ("without_additional_data", "with_two_bytes_of_additional_data"):
     H("C18", "mtrl", "c18_material_" + n, tier="quick" if n.startswith("without") else "thorough", unwind=20, timeout=1200, cbmc_args=FS1K, kani_args=["--no-assertion-reach-checks"],
       bounds="the 88-byte minimal material of c14_material_from_existing_minimal " + n.replace("_", " ") + " (size concrete), everything else as there",
       encodes=["mtrl::Material::from_existing", "mtrl::MaterialData (BinRead)"], stubs=["core::str::validations::run_utf8_validation -> ASCII-only model"])
+H("C18", "shpk", "c18_shader_package_dangling_aliases", tier="quick", unwind=20, timeout=1200, cbmc_args=FS1K, kani_args=["--no-assertion-reach-checks"],
+  bounds="172-byte package: 1 node, 2 aliases with ARBITRARY 32-bit targets, symbolic selectors and query: table construction and lookup never panic; dangling aliases resolve to nothing",
+  encodes=["shpk::ShaderPackage::from_existing", "shpk::ShaderPackage::find_node"], stubs=["core::str::validations::run_utf8_validation -> ASCII-only model"])
+for n, t in (("one_byte_longer_than_file", "quick"), ("as_long_as_whole_file", "quick"), ("between", "thorough")):
+    H("C17", "gearsets", "c17_gearsets_body_" + n, tier=t, unwind=24, timeout=600, bounds="20-byte file: gear-set tag, content size concrete (" + n + ": the body would need more than the 3 bytes present), all other bytes symbolic",
+      encodes=["gearsets::GearSets::from_existing", "dat::DatHeader (BinRead)"])
